@@ -143,12 +143,17 @@ def attempt(f):
 
 
 def np_values(obj, vals):
-    """Independent NumPy-side value of a vector / matrix / scalar object."""
+    """Independent NumPy-side value of a vector / matrix operand: variables looked up, element trees evaluated one by one."""
     from optyx.core import vectors as V, matrices as M
     if isinstance(obj, V.VectorVariable):
         return np.array([vals[v.name] for v in obj._variables])
     if isinstance(obj, M.MatrixVariable):
         return np.array([[vals[v.name] for v in row] for row in obj._variables])
+    with np.errstate(all="ignore"):
+        if isinstance(obj, V.VectorExpression):
+            return np.array([float(e.evaluate(vals)) for e in obj._expressions])
+        if isinstance(obj, M.MatrixExpression):
+            return np.array([[float(e.evaluate(vals)) for e in row] for row in obj._expressions])
     return None
 
 
@@ -161,6 +166,7 @@ def run(rep: vk.Report):
     n = 260 if rep.tier == "quick" else 8000
     cases = Cases("api-ops", IMPORTS, CASE_TYPE, CHECKER, defs=DEFS)
     np_checks = np_bad = 0
+    unsup_results = unsup_operands = 0
     ops_hist = {}
     nums, nmeta = [], []
     for i in range(n):
@@ -206,34 +212,57 @@ def run(rep: vk.Report):
                         model = f"v_binop {BOP[o]} {S.vobj(w)} {S.arg(right)}"; py = attempt(lambda: fn(right, w))
                     else:
                         model = f"v_rbinop {BOP[o]} {S.vobj(w)} {S.arg(right)}"; py = attempt(lambda: fn(right, w))
+                    if py[0] == "ok" and not isinstance(right, str):
+                        rv = np_values(right, vals) if hasattr(right, "size") and not isinstance(right, np.ndarray) else np.asarray(right, dtype=float)
+                        with np.errstate(all="ignore"):
+                            np_ref = (py[1], fn(np_values(w, vals), rv) if op == "binop" else fn(rv, np_values(w, vals)))
                 elif op == "neg":
                     model = f"v_neg {S.vobj(w)}"; py = attempt(lambda: -w)
+                    if py[0] == "ok":
+                        np_ref = (py[1], -np_values(w, vals))
                 elif op == "sum":
                     model = f"v_sum {S.vobj(w)}"; py = attempt(lambda: w.sum())
+                    if py[0] == "ok":
+                        np_ref = (py[1], np.sum(np_values(w, vals)))
                 elif op == "dot":
                     other = r.choice([g.vec(w.size, 1), g.vec(None, 0)])
                     model = f"v_dot {S.vobj(w)} {S.vobj(other)}"; py = attempt(lambda: w.dot(other))
+                    if py[0] == "ok":
+                        np_ref = (py[1], np.dot(np_values(w, vals), np_values(other, vals)))
                 elif op == "dot_matvec":
-                    y = r.choice([x, x[0:nx], g.view()])
-                    A = np.array([[float(r.choice([0, 1, 2, -1])) for _ in range(y.size)] for _ in range(r.choice([nx, nx, y.size]))])
+                    y = r.choice([x, x[0:nx], x[::-1], x[::-1], g.view()])
+                    rows_ = r.choice([nx, nx, y.size])
+                    A = (g.matrix_asym(nx) if (rows_ == nx and y.size == nx and r.random() < 0.6) else
+                         np.array([[float(r.choice([0, 1, 2, -1])) for _ in range(y.size)] for _ in range(rows_)]))
                     model = f"v_dot_matvec {S.vobj(x)} {ser.lst(ser.lst(ser.q(float(t)) for t in row) for row in A)} {S.vobj(y)}"
                     py = attempt(lambda: x.dot(A @ y))
+                    if py[0] == "ok":
+                        np_ref = (py[1], np.dot(np_values(x, vals), A @ np_values(y, vals)))
                 elif op in ("matmul", "rmatmul"):
                     right = r.choice([g.coeffs(w.size), g.coeffs(w.size + 1), list(g.coeffs(w.size)), np.ones((2, w.size)), np.ones((w.size, 2))])
                     if op == "matmul":
                         right = r.choice([right, g.vec(w.size, 0)])
                         model = f"v_matmul {S.vobj(w)} {S.arg(right)}"; py = attempt(lambda: w @ right)
+                        if py[0] == "ok":
+                            rv = np_values(right, vals) if hasattr(right, "_variables") or hasattr(right, "_expressions") else np.asarray(right, dtype=float)
+                            np_ref = (py[1], np_values(w, vals) @ rv)
                     else:
                         if not isinstance(right, np.ndarray):
                             right = np.asarray(right)
                         model = f"v_rmatmul {S.vobj(x)} {S.arg(right)}"; py = attempt(lambda: right @ x)
+                        if py[0] == "ok":
+                            np_ref = (py[1], right @ np_values(x, vals))
                 elif op == "norm":
                     o_ = r.choice([1, 2, 3])
                     model = f"v_norm {S.vobj(w)} ({o_})%Z"; py = attempt(lambda: vnorm(w, o_))
+                    if py[0] == "ok":
+                        np_ref = (py[1], np.linalg.norm(np_values(w, vals), o_))
                 elif op == "quad":
                     Q = r.choice([g.matrix(w.size), g.matrix(w.size + 1), np.ones((w.size, w.size + 1))])
                     model = f"quad_form {S.vobj(w)} {ser.lst(ser.lst(ser.q(float(t)) for t in row) for row in Q)}"
                     py = attempt(lambda: quadratic_form(w, Q))
+                    if py[0] == "ok":
+                        np_ref = (py[1], np_values(w, vals) @ Q @ np_values(w, vals))
                 elif op == "m_getitem":
                     a, b = r.randint(-M.rows - 1, M.rows), r.randint(-M.cols - 1, M.cols)
                     model = f"m_getitem {S.mobj(M)} ({a})%Z ({b})%Z"; py = attempt(lambda: M[a, b])
@@ -254,8 +283,12 @@ def run(rep: vk.Report):
                         np_ref = (py[1], np_values(M, vals).T)
                 elif op == "diagonal":
                     model = f"m_diagonal {S.mobj(M)}"; py = attempt(lambda: M.diagonal())
+                    if py[0] == "ok":
+                        np_ref = (py[1], np.diagonal(np_values(M, vals)))
                 elif op == "trace":
                     model = f"m_trace {S.mobj(M)}"; py = attempt(lambda: M.trace())
+                    if py[0] == "ok":
+                        np_ref = (py[1], np.trace(np_values(M, vals)))
                 elif op in ("m_binop", "m_rbinop"):
                     o = r.choice(["+", "-", "*", "/"]) if op == "m_binop" else r.choice(["-", "/"])
                     import operator
@@ -267,17 +300,42 @@ def run(rep: vk.Report):
                         model = f"m_binop {BOP[o]} {S.mobj(M)} {S.arg(right)}"; py = attempt(lambda: fn(M, right))
                     else:
                         model = f"m_rbinop {BOP[o]} {S.mobj(M)} {S.arg(right)}"; py = attempt(lambda: fn(right, M))
+                    if py[0] == "ok":
+                        rv = np_values(right, vals) if hasattr(right, "rows") else np.asarray(right, dtype=float)
+                        with np.errstate(all="ignore"):
+                            try:
+                                np_ref = (py[1], fn(np_values(M, vals), rv) if op == "m_binop" else fn(rv, np_values(M, vals)))
+                            except ValueError as ex:
+                                rep.violation({"kind": "numpy", "obligation": "operands NumPy cannot broadcast are rejected, not combined",
+                                               "witness": {"op": op, "operator": o, "matrix": [M.name, M.rows, M.cols], "right_shape": list(np.shape(rv)),
+                                                           "result": type(py[1]).__name__, "numpy_error": str(ex)}}, concrete=True)
                 elif op == "m_neg":
                     model = f"m_neg {S.mobj(M)}"; py = attempt(lambda: -M)
+                    if py[0] == "ok":
+                        np_ref = (py[1], -np_values(M, vals))
                 elif op == "m_sum":
                     model = f"m_sum {S.mobj(M)}"; py = attempt(lambda: M.sum())
+                    if py[0] == "ok":
+                        np_ref = (py[1], np.sum(np_values(M, vals)))
                 elif op == "frob":
                     model = f"m_frob {S.mobj(M)}"; py = attempt(lambda: frobenius_norm(M))
+                    if py[0] == "ok":
+                        np_ref = (py[1], np.linalg.norm(np_values(M, vals), "fro"))
                 else:
                     y = r.choice([g.vec(M.cols, 0), g.vec(None, 0)])
                     model = f"m_matvec {S.mobj(M)} {S.vobj(y)}"; py = attempt(lambda: M @ y)
+                    if py[0] == "ok":
+                        np_ref = (py[1], np_values(M, vals) @ np_values(y, vals))
                 if py[0] == "ok":
-                    seen = S.res(py[1])
+                    try:
+                        seen = S.res(py[1])
+                    except ser.Unsupported as ex:
+                        # the operands were expressible but the RESULT is not a vector / matrix / scalar tree over scalar constants
+                        unsup_results += 1
+                        rep.violation({"kind": "correspondence", "obligation": "an accepted operation returns a vector, matrix or scalar expression whose element trees are scalar",
+                                       "witness": {"op": op, "model_call": model[:600], "result_type": type(py[1]).__name__, "reason": str(ex)[:200]}},
+                                      concrete=True)
+                        continue
                 else:
                     seen = f"(RErr {ERR.get(type(py[1]).__name__, 'EInvalid')})" if type(py[1]).__name__ in ERR else None
                     if seen is None:
@@ -285,16 +343,24 @@ def run(rep: vk.Report):
                                        "op": op, "error": repr(py[1])[:300]}, concrete=True)
                         continue
             except ser.Unsupported:
+                unsup_operands += 1
                 continue
             cases.add(f"({model}, {seen})", {"op": op, "python": "ok" if py[0] == "ok" else type(py[1]).__name__}, kinds={op, seen[:6]})
             # independent NumPy reference for value-level agreement
             if np_ref is not None:
                 built, ref = np_ref
-                got = np.array(built.evaluate(vals), dtype=float) if hasattr(built, "evaluate") else np_values(built, vals)
-                if got is None:
-                    got = np_values(built, vals)
+                ref = np.asarray(ref, dtype=float)
+                with np.errstate(all="ignore"):
+                    try:
+                        got = np.array(built.evaluate(vals), dtype=float) if hasattr(built, "evaluate") else np_values(built, vals)
+                    except (ZeroDivisionError, OverflowError, ValueError, TypeError):
+                        got = None
+                    if got is None:
+                        got = np_values(built, vals)
+                if not np.all(np.isfinite(ref)) or (got is not None and not np.all(np.isfinite(np.asarray(got, dtype=float)))):
+                    continue          # a division by zero somewhere in the values: outside the domain
                 np_checks += 1
-                if got is None or np.asarray(got).shape != ref.shape or not np.allclose(got, ref, rtol=1e-12, atol=0):
+                if got is None or np.asarray(got).shape != ref.shape or not np.allclose(got, ref, rtol=1e-9, atol=1e-12):
                     np_bad += 1
                     rep.violation({"kind": "numpy", "obligation": "built object evaluates to the NumPy operation on the values",
                                    "witness": {"op": op, "got": None if got is None else np.asarray(got).tolist(), "numpy": ref.tolist()}},
@@ -325,6 +391,8 @@ def run(rep: vk.Report):
     cov["samples"] = [c[:400] for c in cases.terms[:4]]
     cov["operation_histogram"] = dict(sorted(ops_hist.items()))
     cov["error_results"] = sum(1 for m in cases.meta if m["python"] != "ok")
+    cov["operands_outside_serialiser"] = unsup_operands
+    cov["results_outside_serialiser"] = unsup_results
     cov["numpy_reference_checks"] = np_checks
     cov["numpy_reference_failures"] = np_bad
     cov["scalar_enclosure_checks"] = len(nums)
